@@ -440,6 +440,68 @@ func hasLoneNewline(d dval) bool {
 	return false
 }
 
+// shrinkDoc greedily reduces a failing document (single members, neutral keys, single
+// elements, unwrapped containers) while the replay still reports a problem.
+func shrinkDoc(d dval, problem string, replay func(dval) string) (dval, string) {
+	cands := func(d dval) []dval {
+		var out []dval
+		if d.Kind != "obj" {
+			return nil
+		}
+		if len(d.Keys) > 1 {
+			for i := range d.Keys {
+				out = append(out, dval{Kind: "obj", Keys: []string{d.Keys[i]}, Items: []dval{d.Items[i]}})
+			}
+			return out
+		}
+		if len(d.Keys) == 0 {
+			return nil
+		}
+		k, v := d.Keys[0], d.Items[0]
+		mk := func(k string, v dval) dval { return dval{Kind: "obj", Keys: []string{k}, Items: []dval{v}} }
+		if k != "k" {
+			out = append(out, mk("k", v))
+		}
+		switch v.Kind {
+		case "list":
+			for _, e := range v.Items {
+				out = append(out, mk(k, e))
+				if len(v.Items) > 1 {
+					out = append(out, mk(k, dval{Kind: "list", Items: []dval{e}}))
+				}
+			}
+		case "obj":
+			for i, e := range v.Items {
+				out = append(out, mk(k, e))
+				if len(v.Items) > 1 || v.Keys[i] != "k" {
+					out = append(out, mk(k, mk("k", e)))
+				}
+				if len(v.Items) > 1 {
+					out = append(out, mk(k, mk(v.Keys[i], e)))
+				}
+			}
+		case "str":
+			if v.S != "v" {
+				out = append(out, mk(k, dval{Kind: "str", S: "v"}))
+			}
+		}
+		return out
+	}
+	for round := 0; round < 12; round++ {
+		found := false
+		for _, c := range cands(d) {
+			if p := replay(c); p != "" && !strings.HasPrefix(p, "TOOL:") {
+				d, problem, found = c, p, true
+				break
+			}
+		}
+		if !found {
+			break
+		}
+	}
+	return d, problem
+}
+
 // anyStr / anyKey report whether some string value / object key of d satisfies pred.
 func anyStr(d dval, pred func(string) bool) bool {
 	if d.Kind == "str" && pred(d.S) {
@@ -860,6 +922,19 @@ func checkCodec(r *kit.Run, family string) {
 			}
 			if strings.HasPrefix(problem, "TOOL:") {
 				r.Fatal("%s (document %s)", problem, truth.cue())
+			}
+			if problem != "" {
+				// shrink to a smallest sub-document that still fails, so that the class names the cause
+				full := truth
+				truth, problem = shrinkDoc(truth, problem, func(d dval) string {
+					if family == "cli" {
+						return replayCLI(d, ops, mustFail)
+					}
+					return replayAPI(ctxs[w], d, ops)
+				})
+				if truth.cue() != full.cue() {
+					problem += "  (shrunk from " + full.cue() + ")"
+				}
 			}
 			if problem != "" && family != "json" && anyStr(truth, leadingSpaceBlock) {
 				r.Violation("class yaml-block-scalar-leading-space", fmt.Sprintf("%v on %s: %s", ops, truth.cue(), problem), map[string]any{"document_cue": truth.cue(), "behaviour": ops})
